@@ -143,7 +143,7 @@ class C16(Check):
     thorough_examples = 3000
     chunk = 150
     rule = (
-        "cases: method sets of 1..4 methods (functions and class based view methods, context parameters, custom exposed names) with 0..3 "
+        "cases: method sets of 1..4 methods (functions and class based view methods, context parameters, custom exposed names, the same function exposed under a second name) with 0..3 "
         "parameters annotated over int / str / float / bool / Optional / List / Dict / three pydantic model classes (nested, optional, list of), "
         "return annotations incl. None and missing, docstrings (none, summary only, full reST with :param: / :returns: / :raises: of registered "
         "error names / deprecation) x annotations (errors incl. ONE list object shared by several methods, tags, examples, summary, "
@@ -166,7 +166,7 @@ class C16(Check):
     trusted_base = ['jsonschema 3.2 + the meta-schemas in tests/server/resources', 'python json']
     required_classes = ['kind/openapi-3.1.0', 'kind/openapi-3.0.3', 'kind/openrpc', 'extractors/base', 'extractors/pydantic', 'extractors/docstring',
                         'extractors/pydantic+docstring', 'extractors/docstring+pydantic', 'shared-errors-list', 'generations>=2', 'methods>=2',
-                        'annot/prefix', 'annot/examples', 'annot/errors', 'flavour/view', 'endpoints/2', 'doc/full', 'doc/bare-types', 'opts/status-map']
+                        'annot/prefix', 'annot/examples', 'annot/errors', 'flavour/view', 'endpoints/2', 'doc/full', 'doc/bare-types', 'opts/status-map', 'alias']
 
     # ---- generation -------------------------------------------------------------------------------------------
 
@@ -186,6 +186,7 @@ class C16(Check):
         s_method = st.fixed_dictionaries({
             'params': st.lists(s_param, max_size=3), 'ret': s_ret, 'doc': s_doc, 'ctx': s_rare, 'flavour': st.sampled_from(['func', 'func', 'view']),
             'custom_name': s_rare, 'annotated': st.sampled_from([True, True, False]), 'annot': s_annot,
+            'alias': st.integers(0, 5).map(lambda n: n == 0),     # the same function exposed a second time under another name
         })
         return st.fixed_dictionaries({
             'kind': st.sampled_from(['openapi-3.1.0', 'openapi-3.1.0', 'openapi-3.0.3', 'openrpc', 'openrpc']),
@@ -206,6 +207,11 @@ class C16(Check):
         for kind, ex in (('openapi-3.1.0', ['pydantic', 'docstring']), ('openrpc', ['pydantic']), ('openrpc', ['base']), ('openapi-3.1.0', ['base'])):
             out.append({'kind': kind, 'extractors': ex, 'methods': [m(), m(doc='full'), m(annot={**annot, 'prefix': 'P1', 'errors': 'own'}), m(flavour='view')],
                         'endpoints': 2, 'generations': 3, 'spec_opts': opts, 'path': '/api'})
+        out.append({'kind': 'openapi-3.1.0', 'extractors': ['pydantic'], 'endpoints': 1, 'generations': 2, 'path': '/api',
+                    'spec_opts': {**opts, 'status_map': {'2001': 404, '-32601': 404, '2002': 409}},
+                    'methods': [m(annot={**annot, 'errors': 'own', 'error_names': ['Custom2001', 'Custom2002', 'MethodNotFoundError'], 'prefix': 'P1'}),
+                                m(doc='none', annot={**annot, 'errors': 'own', 'error_names': ['Custom2002'], 'prefix': 'Pfx2'}),
+                                m(doc='none', annot={**annot, 'errors': 'none'}, alias=True)]})
         return out
 
     # ---- building --------------------------------------------------------------------------------------------------
@@ -328,6 +334,10 @@ class C16(Check):
             else:
                 reg.add(fn, exposed, context='ctx' if ms['ctx'] else None)
             built.append({'fn': fn, 'exposed': exposed, 'endpoint': i % spec['endpoints']})
+            if ms.get('alias') and not view:
+                alias = f'alias.of.{pyname}'
+                reg.add(fn, alias, context='ctx' if ms['ctx'] else None)
+                built.append({'fn': fn, 'exposed': alias, 'endpoint': i % spec['endpoints'], 'alias_of': exposed})
         return registries, built, user_objects
 
     def _make_spec(self, spec: Dict[str, Any]):
@@ -363,7 +373,7 @@ class C16(Check):
             prefixes = [''] * len(registries)
         mm: Dict[str, List[Any]] = {}
         for pfx, reg in zip(prefixes, registries):
-            methods = [m for m in reg.values() if only is None or m.method is only['fn']]
+            methods = [m for m in reg.values() if only is None or (m.method is only['fn'] and m.name == only['exposed'])]
             mm.setdefault(pfx, [])
             mm[pfx] += methods
         return sp.schema(path=spec['path'], methods_map=mm)
@@ -484,6 +494,8 @@ class C16(Check):
         if shared:
             classes.append('shared-errors-list')
         for m in spec['methods']:
+            if m.get('alias') and m['flavour'] != 'view':
+                classes.append('alias')
             classes.append(f"flavour/{m['flavour']}")
             classes.append(f"doc/{m['doc']}")
             if m['annotated']:
